@@ -145,6 +145,25 @@ Theorem C09_later_load_affected_refuted :
 Proof. exact later_load_affected. Qed.
 Print Assumptions C09_later_load_affected_refuted.
 
+(* history_failed_ops_invisible (the whole-history form: the observable at the end of a history is the one at the end of the
+   history of its calls that did not fail; succ_ops R s ops = the operations of ops whose result was not RErr) does NOT hold,
+   not even for contexts without LY_CTX_EXPLICIT_COMPILE: the main theorem restores obs, not the C state, and a later
+   successful call can see the difference (LYS_MOD_IMPORTED_REV, known finding ctx-hidden-state-left; same witness as
+   C09_later_load_affected_refuted, read as one history: parse d, failing parse of b, parse a@2, parse c). *)
+Theorem C09_history_failed_ops_invisible_refuted :
+  ~ (forall R ops, obs (run R (init false) ops) = obs (run R (init false) (succ_ops R (init false) ops))).
+Proof. exact history_failed_ops_invisible_refuted. Qed.
+Print Assumptions C09_history_failed_ops_invisible_refuted.
+
+(* Quiescence along the history is not what is missing: in the counterexample every state between two calls is quiescent,
+   so a proof that calls preserve quiescence (tested by the oracle ctx-model-inv, not proved) would not give the
+   whole-history form either; it needs the C state, not obs, to be restored. *)
+Theorem C09_history_counterexample_quiescent :
+  exists R ops, (forall n, quiescent (run R (init false) (firstn n ops)) = true) /\
+    obs (run R (init false) ops) <> obs (run R (init false) (succ_ops R (init false) ops)).
+Proof. exact history_counterexample_quiescent. Qed.
+Print Assumptions C09_history_counterexample_quiescent.
+
 (* data_trees_still_valid does not hold either: the failed load of b (leafref without target, b imports the
    implemented a) restores the observable, but a was recompiled (twice: by the failing call and by the revert), so
    a data tree of a created before the call points into freed schema nodes. *)
